@@ -530,6 +530,10 @@ STATIC_CULPRITS = [
      {"lib2": "\n\n\n\n\n\n\n  pub fn culprit(n: int) -> int {{ n }}\nfn main() {{ }}\n"}),
     ("unused-import-code-let", "import {{ {C}, k }} from lib2;\nfn main() {{\n    println(k);\n}}\n", "culprit", 2, "Import `culprit` is unused",
      {"lib2": "\n\n\n\npub let k = 1;\n\n\n     pub let culprit = 2;\nfn main() {{ }}\n"}),
+    # hints lie within the construct they speak about: the DEFAULT arm for "branches following this arm", the unreachable arm
+    # for the warning; both in a multi-line match
+    ("unreachable-arm-hint", "fn main() {{\n    let a = match 1 {{\n        {C},\n        2 => 3,\n        4 => 5,\n    }};\n    println(a);\n}}\n", "_ => 1", 0, "Any branches following this arm"),
+    ("unreachable-arm-warning", "fn main() {{\n    let a = match 1 {{\n        _ => 1,\n        {C},\n        4 => 5,\n    }};\n    println(a);\n}}\n", "2 => 3", 2, "This match-arm is unreachable"),
     ("unused-import-host", "import {{ ping, {C} }} from net;\nfn main() {{\n    println(ping(\"a\", 1.0));\n}}\n", "http", 2, "Import `http` is unused"),
 ]
 
